@@ -32,7 +32,9 @@ func verifIO(t *testing.T) (*bufio.Scanner, *bufio.Writer, func()) {
 	if err != nil {
 		t.Fatal(err)
 	}
-	w := bufio.NewWriterSize(out, 1<<20)
+	// effectively unbuffered: what a scenario has written survives a crash of the process, so the scenario that was running
+	// when it died can be told from the output
+	w := bufio.NewWriterSize(out, 1)
 	return sc, w, func() {
 		w.Flush()
 		out.Close()
